@@ -67,10 +67,25 @@ func (g *srcGen) tag(allowPlenc bool, next *int) string {
 		}
 	}
 	if len(parts) == 0 {
+		// no keys: usually no tag at all, now and then a tag literal that holds nothing, or only spaces
+		if g.r.IntN(12) == 0 {
+			return " " + []string{"``", "` `", "`   `", `""`, `" "`}[g.r.IntN(5)]
+		}
 		return ""
 	}
 	g.r.Shuffle(len(parts), func(i, j int) { parts[i], parts[j] = parts[j], parts[i] })
-	return " `" + strings.Join(parts, " ") + "`"
+	tag := strings.Join(parts, " ")
+	switch g.r.IntN(12) {
+	case 0:
+		// the same tag written as an interpreted string literal
+		return " " + strconv.Quote(tag)
+	case 1:
+		// ... one whose value holds a backquote, which no raw string can
+		return " " + strconv.Quote(tag+" doc:\"a`b\"")
+	case 2:
+		return " ` " + tag + "  `" // padded with spaces
+	}
+	return " `" + tag + "`"
 }
 
 func (g *srcGen) anonStruct(depth int) string {
@@ -104,7 +119,7 @@ func (g *srcGen) structBody(generic bool) string {
 		if g.r.IntN(6) == 0 {
 			fmt.Fprintf(&b, "\t// comment on field %d\n", i)
 		}
-		name := fmt.Sprintf("%s%d", []string{"A", "B", "c", "D", "e", "F", "_g", "H"}[g.r.IntN(8)], i)
+		name := fmt.Sprintf("%s%d", []string{"A", "B", "c", "D", "e", "F", "_g", "H", "Ấ", "Ḃ", "Ｚ", "Ω", "é", "ж"}[g.r.IntN(14)], i)
 		switch k := g.r.IntN(16); {
 		case k == 0 && !embedded["Inner"]:
 			embedded["Inner"] = true
@@ -120,10 +135,10 @@ func (g *srcGen) structBody(generic bool) string {
 			fmt.Fprintf(&b, "\tlower%s\n", g.tag(false, &next))
 		case k == 4:
 			// several names, one tag
-			n2 := fmt.Sprintf("%s%dx", []string{"M", "n"}[g.r.IntN(2)], i)
+			n2 := fmt.Sprintf("%s%dx", []string{"M", "n", "Ẩ", "Ｍ"}[g.r.IntN(4)], i)
 			n3 := ""
 			if g.r.IntN(2) == 0 {
-				n3 = fmt.Sprintf(", P%dy", i)
+				n3 = fmt.Sprintf(", %s%dy", []string{"P", "Ṕ"}[g.r.IntN(2)], i)
 			}
 			// a shared tag cannot hold a pre-existing index: two fields would share it
 			fmt.Fprintf(&b, "\t%s, %s%s string%s", name, n2, n3, g.tag(false, &next))
@@ -231,7 +246,20 @@ func embeddedName(e ast.Expr) string {
 
 // typeSansTags renders a type expression with every struct tag blanked
 func typeSansTags(fset *token.FileSet, e ast.Expr) string {
-	return stripTags(exprString(fset, e))
+	// a private copy of the expression (re-parsed from its own rendering) whose tag literals are
+	// removed from the tree: raw, interpreted and empty literals alike
+	s := exprString(fset, e)
+	cp, err := parser.ParseExpr(s)
+	if err != nil {
+		return stripTags(s)
+	}
+	ast.Inspect(cp, func(n ast.Node) bool {
+		if fl, ok := n.(*ast.Field); ok {
+			fl.Tag = nil
+		}
+		return true
+	})
+	return strings.Join(strings.Fields(exprString(token.NewFileSet(), cp)), " ")
 }
 
 func stripTags(s string) string {
